@@ -6,7 +6,7 @@ import sys
 
 ROOT = os.path.dirname(os.path.dirname(os.path.abspath(__file__)))
 sys.path.insert(0, ROOT)
-sys.path.insert(0, '/repo')
+sys.path.insert(0, os.environ.get('EAO_REPO', '/repo'))   # EAO_REPO: development only (seeded changes in a scratch worktree); the registered commands use /repo
 import warnings
 warnings.filterwarnings('ignore')
 os.environ.setdefault('PYTHONWARNINGS', 'ignore')
